@@ -264,7 +264,7 @@ type writingErrorHandler struct{ log authboss.Logger }
 func (e writingErrorHandler) Wrap(h func(w http.ResponseWriter, r *http.Request) error) http.Handler {
 	return http.HandlerFunc(func(w http.ResponseWriter, r *http.Request) {
 		if err := h(w, r); err != nil {
-			e.log.Error(fmt.Sprintf("request error from (%s) %s: %+v", r.RemoteAddr, r.URL.String(), err))
+			e.log.Error(fmt.Sprintf("request error from (%s) %s: %+v", r.RemoteAddr, r.URL.Path, err))
 			w.WriteHeader(http.StatusInternalServerError)
 		}
 	})
@@ -468,7 +468,7 @@ func (w *World) close() {
 // /app/<full><tf><fail><lock><confirm><remember><expire>/...   each one character
 func (w *World) appStack(rw http.ResponseWriter, r *http.Request) {
 	parts := strings.SplitN(strings.TrimPrefix(r.URL.Path, "/app/"), "/", 2)
-	v := parts[0] + "0000000"
+	v := parts[0] + "00000000"
 	var reqs authboss.MWRequirements
 	if v[0] == '1' {
 		reqs |= authboss.RequireFullAuth
@@ -497,7 +497,14 @@ func (w *World) appStack(rw http.ResponseWriter, r *http.Request) {
 	if v[3] == '1' {
 		h = lock.Middleware(w.ab)(h)
 	}
-	h = authboss.Middleware2(w.ab, reqs, fr)(h)
+	switch v[7] { // the constructor: the v1 signatures are thin wrappers that translate their booleans
+	case '1':
+		h = authboss.Middleware(w.ab, v[2] == 'r', v[0] == '1', v[1] == '1')(h)
+	case '2':
+		h = authboss.MountedMiddleware(w.ab, false, v[2] == 'r', v[0] == '1', v[1] == '1')(h)
+	default:
+		h = authboss.Middleware2(w.ab, reqs, fr)(h)
+	}
 	if v[5] == '1' {
 		h = remember.Middleware(w.ab)(h)
 	}
